@@ -34,6 +34,7 @@ def handleJT (req : Json) : Except String Json := do
     ("antichain", antichain nodes), ("is_tree", isTree t), ("rip", rip attrs t),
     ("schedule_complete", scheduleComplete t mp), ("schedule_respects", scheduleRespects t [] mp),
     ("topo", isTopoSort (messages t) (depEdges t) mp),
+    ("preorder", isPreorder t nodes), ("rip_order", ripOrder nodes),
     ("all", checkJT attrs cliques t mp)]
   pure (Json.mkObj [("check", chk), ("model_nodes", encCliques mc), ("weight", Codec.enc (weight t)),
     ("bound", Codec.enc (weightBound attrs nodes)), ("greedy", encList greedy),
